@@ -10,7 +10,7 @@ const acorn = require('internal/deps/acorn/acorn/dist/acorn');
 
 class InstrumentError extends Error {}
 
-const STRING_METHODS = new Set(['charCodeAt', 'charAt', 'substring', 'substr', 'indexOf', 'lastIndexOf', 'codePointAt']);
+const STRING_METHODS = new Set(['charCodeAt', 'charAt', 'substring', 'substr', 'indexOf', 'lastIndexOf', 'codePointAt', 'join']);
 const SIMPLE_TEST = n => n.type === 'Literal' || n.type === 'Identifier' ||
   (n.type === 'UnaryExpression' && n.operator === '-' && n.argument.type === 'Literal') ||
   n.type === 'ArrowFunctionExpression' || n.type === 'FunctionExpression' ||
